@@ -153,7 +153,10 @@ def emit(seed, n_tokens, n_consts):
     consts = set([0, 1, -1, 2, 3, 40, -40, 0x5555, 0xAAAA0000])
     for k in range(0, 126, 1 if n_consts > 150 else 5):
         consts.update([1 << k, (1 << k) + 1, (1 << k) - 1, -(1 << k), ((1 << k) - 1) // 3, (0xA5 << k) if k < 118 else 5])
-    always = [0, 1, -1, -2, 40, -40, -(1 << 20), -(1 << 125), (1 << 126) - 1, (1 << 100), 0xAAAA0000]  # in every program
+    for k in (7, 8, 15, 16, 31, 32, 33, 63, 64, 65):  # storage-word boundaries at every sampling density
+        consts.update([1 << k, (1 << k) + 1, (1 << k) - 1, -(1 << k), -((1 << k) - 1)])
+    always = [0, 1, -1, -2, 40, -40, -(1 << 20), -(1 << 125), (1 << 126) - 1, (1 << 100), 0xAAAA0000,  # in every program
+              (1 << 32) - 1, -((1 << 32) - 1), (1 << 64) - 1, 0x80000001, 0xFFFFFFFF00, (1 << 63) + 1, (1 << 31) - 1, -((1 << 63) + 1), ((1 << 64) - 1) << 20, (1 << 16) - 1]
     consts = sorted(consts - set(always), key=lambda v: (abs(v), v))
     rng.shuffle(consts)
     for v in always + consts[:max(0, n_consts - len(always))]:
@@ -175,7 +178,7 @@ def emit(seed, n_tokens, n_consts):
 
 def plan(tier, seed):
     quick = tier == 'quick'
-    regs = emit(seed, 160 if quick else 1500, 60 if quick else 400)
+    regs = emit(seed, 160 if quick else 1500, 72 if quick else 420)
     units = [Unit('C15-lit-gxx-%d' % i, 'gxx', 'props/C15.h', part, rc_cases=0, enum_max=10 ** 6, chunk=60,
                   extra_flags=['-fconstexpr-ops-limit=2000000000', '-fconstexpr-loop-limit=100000000'])
              for i, part in enumerate(split(regs, 16 if quick else 48))]
